@@ -252,6 +252,23 @@ class Tensor:
                 elif step == -1 and start is None and stop is None:
                     plan.append(("rev", len(out_shape), d))
                     out_shape.append(d)
+                elif stop is None and (isinstance(step, Sym) or (isinstance(step, int) and step > 1)):
+                    # x[a::k] with a (possibly symbolic) positive step: entries a, a+k, a+2k, ... < d; their number L
+                    # is a fresh integer constrained by L*k >= d-a and (L-1)*k < d-a (no division by a symbolic step)
+                    from .sym import engine, fresh
+
+                    kk = _lift(step)
+                    st = 0 if start is None else start
+                    if isinstance(st, int) and st < 0:
+                        st = _dterm(d) + st
+                    st_t = _lift(st)
+                    eng = engine()
+                    eng.assume(kk >= 1)
+                    L = fresh("slice_len", z3.IntSort())
+                    rem = _dterm(d) - st_t
+                    eng.assume(z3.If(rem <= 0, L == 0, z3.And(L >= 1, L * kk >= rem, (L - 1) * kk < rem)))
+                    plan.append(("out", len(out_shape), st, kk))
+                    out_shape.append(L)
                 else:
                     raise EngineLimit("slice %r" % (k,))
             elif isinstance(k, Tensor):
